@@ -17,9 +17,9 @@ const fn b(world: &'static str, shape: &'static str, quick: u64, thorough: u64) 
 
 pub fn batches(prop: &str) -> Vec<Batch> {
     match prop {
-        "C01" => vec![b("A", "mixed", 2500, 120_000), b("A", "concurrent", 1000, 60_000), b("A", "restart", 500, 60_000), b("A", "crash", 300, 30_000)],
+        "C01" => vec![b("A", "mixed", 2500, 120_000), b("A", "concurrent", 1000, 60_000), b("A", "restart", 500, 60_000), b("A", "crash", 300, 30_000), b("A", "poolchange", 1000, 60_000)],
         "C02" => vec![b("A", "mixed", 1500, 60_000), b("A", "drain", 400, 20_000), b("A", "drain-large", 24, 400)],
-        "C09" => vec![b("A", "mixed", 3000, 200_000), b("A", "roam", 1000, 60_000)],
+        "C09" => vec![b("A", "mixed", 3000, 200_000), b("A", "roam", 1000, 60_000), b("A", "poolchange", 2000, 100_000)],
         "C10" => vec![b("A", "mixed", 2500, 150_000), b("A", "rhythm", 800, 60_000)],
         "C12" => vec![b("A", "wire", 2500, 150_000), b("A", "mixed", 800, 50_000)],
         "C13" => vec![b("A", "mixed", 3000, 200_000), b("A", "restart", 500, 40_000)],
